@@ -13,9 +13,10 @@
    (longest match yields exactly the RFC tokenisation), stage 1 (the recovering parser is
    silent and the walk succeeds iff the token list is grammatical) and their composition.
 
-   Of the code as it is ([cfg_now]) the statement is FALSE in both directions; the theorems
-   below exhibit one witness per class of non-JSON text that is accepted (F2: the parser's
-   diagnostics are dropped by lib.rs) and the legal text that is rejected (F3: bare CR). *)
+   Before the fixes F2 (honour the parser diagnostics) and F3 (bare CR is whitespace) the
+   statement was FALSE of the code in both directions; the theorems below keep one witness
+   per class as a regression: the code before the fixes ([cfg_pre]) accepted / rejected it
+   wrongly, the code as it is ([cfg_now]) agrees with the reference. *)
 From Coq Require Import List Bool NArith.
 Import ListNotations.
 From JS Require Import Model.Base Model.Shape Model.Sem Model.Infer Model.Lexer Model.Parser
@@ -62,55 +63,56 @@ Definition w_deep_open : list char := repeat 91%N 300.                     (* 30
 Definition w_deep_closed : list char := repeat 91%N 300 ++ repeat 93%N 300.   (* 300 x [ then 300 x ] *)
 Definition w_bare_cr : list char := [49; 13]%N.   (* 1<CR> *)
 
-(* F2, one theorem per class: accepted today, not JSON, and in the decidable class
-   [diag_dropped] that the check uses to recognise the finding *)
+(* F2, one theorem per class: accepted before the fix, not JSON, rejected now (so the class
+   [diag_dropped] of the check is empty on it) *)
+Definition cfg_pre : cfg := {| f2_honour_diags := false; f3_cr_newline := false |}.
 Definition f2_witness (w : list char) : Prop :=
-  accepts cfg_now w = true /\ ref_accepts w = false /\ diag_dropped w = true /\ accepts cfg_fixed w = false.
+  accepts cfg_pre w = true /\ ref_accepts w = false /\ diag_dropped w = false /\ accepts cfg_now w = false.
 
-Theorem C04_unterminated_array_refuted : f2_witness w_unterminated_array /\ ref_json w_unterminated_array = None.
+Theorem C04_unterminated_array_fixed : f2_witness w_unterminated_array /\ ref_json w_unterminated_array = None.
 Proof. vm_compute. repeat split. Qed.
-Print Assumptions C04_unterminated_array_refuted.
+Print Assumptions C04_unterminated_array_fixed.
 
-Theorem C04_unterminated_object_refuted : f2_witness w_unterminated_object /\ ref_json w_unterminated_object = None.
+Theorem C04_unterminated_object_fixed : f2_witness w_unterminated_object /\ ref_json w_unterminated_object = None.
 Proof. vm_compute. repeat split. Qed.
-Print Assumptions C04_unterminated_object_refuted.
+Print Assumptions C04_unterminated_object_fixed.
 
-Theorem C04_missing_colon_refuted : f2_witness w_missing_colon /\ ref_json w_missing_colon = None.
+Theorem C04_missing_colon_fixed : f2_witness w_missing_colon /\ ref_json w_missing_colon = None.
 Proof. vm_compute. repeat split. Qed.
-Print Assumptions C04_missing_colon_refuted.
+Print Assumptions C04_missing_colon_fixed.
 
-Theorem C04_trailing_comma_refuted : f2_witness w_trailing_comma /\ ref_json w_trailing_comma = None.
+Theorem C04_trailing_comma_fixed : f2_witness w_trailing_comma /\ ref_json w_trailing_comma = None.
 Proof. vm_compute. repeat split. Qed.
-Print Assumptions C04_trailing_comma_refuted.
+Print Assumptions C04_trailing_comma_fixed.
 
-Theorem C04_bad_escape_refuted : f2_witness w_bad_escape /\ ref_json w_bad_escape = None.
+Theorem C04_bad_escape_fixed : f2_witness w_bad_escape /\ ref_json w_bad_escape = None.
 Proof. vm_compute. repeat split. Qed.
-Print Assumptions C04_bad_escape_refuted.
+Print Assumptions C04_bad_escape_fixed.
 
-Theorem C04_raw_newline_refuted : f2_witness w_raw_newline /\ ref_json w_raw_newline = None.
+Theorem C04_raw_newline_fixed : f2_witness w_raw_newline /\ ref_json w_raw_newline = None.
 Proof. vm_compute. repeat split. Qed.
-Print Assumptions C04_raw_newline_refuted.
+Print Assumptions C04_raw_newline_fixed.
 
-Theorem C04_bad_unicode_escape_refuted : f2_witness w_bad_unicode_escape /\ ref_json w_bad_unicode_escape = None.
+Theorem C04_bad_unicode_escape_fixed : f2_witness w_bad_unicode_escape /\ ref_json w_bad_unicode_escape = None.
 Proof. vm_compute. repeat split. Qed.
-Print Assumptions C04_bad_unicode_escape_refuted.
+Print Assumptions C04_bad_unicode_escape_fixed.
 
-Theorem C04_depth_300_open_refuted : f2_witness w_deep_open /\ ref_json w_deep_open = None.
+Theorem C04_depth_300_open_fixed : f2_witness w_deep_open /\ ref_json w_deep_open = None.
 Proof. vm_compute. repeat split. Qed.
-Print Assumptions C04_depth_300_open_refuted.
+Print Assumptions C04_depth_300_open_fixed.
 
 (* grammatical but deeper than 256: the documented exception, accepted today *)
-Theorem C04_depth_300_closed_refuted :
+Theorem C04_depth_300_closed_fixed :
   f2_witness w_deep_closed /\ option_map jdepth (ref_json w_deep_closed) = Some 300.
 Proof. vm_compute. repeat split. Qed.
-Print Assumptions C04_depth_300_closed_refuted.
+Print Assumptions C04_depth_300_closed_fixed.
 
 (* F3: a bare CR is RFC 8259 whitespace, the lexer makes it an Error token *)
-Theorem C04_bare_cr_refuted :
-  accepts cfg_now w_bare_cr = false /\ ref_accepts w_bare_cr = true /\ cr_rejected w_bare_cr = true
-  /\ accepts cfg_fixed w_bare_cr = true.
+Theorem C04_bare_cr_fixed :
+  accepts cfg_pre w_bare_cr = false /\ ref_accepts w_bare_cr = true /\ cr_rejected w_bare_cr = false
+  /\ accepts cfg_now w_bare_cr = true.
 Proof. vm_compute. repeat split. Qed.
-Print Assumptions C04_bare_cr_refuted.
+Print Assumptions C04_bare_cr_fixed.
 
 (* non-vacuity / extraction guard: the three recognisers on a text with all four whitespace
    characters, every number part, escapes, nesting and a consistent duplicate *)
